@@ -95,12 +95,17 @@ class ClassInfo:
 
 
 class ModuleInfo:
-    def __init__(self, name, path, source):
+    def __init__(self, name, path, source, normalise=True):
         self.name = name
         self.path = path
         self.source = source
         self.sha256 = hashlib.sha256(source.encode()).hexdigest()
-        self.tree = A.set_parents(ast.parse(source, filename=path))
+        self.tree = ast.parse(source, filename=path)
+        self.normalisation = {}
+        if normalise:
+            from .normalise import normalise as _norm
+            self.normalisation = _norm(self.tree)
+        self.tree = A.set_parents(self.tree)
         self.nodes = sum(1 for _ in ast.walk(self.tree))
         self.lines = source.count('\n') + 1
         self.imports = {}     # local name -> dotted target
@@ -172,7 +177,7 @@ def read_sources(root):
 
 
 class Repo:
-    def __init__(self, root='/repo', sources=None):
+    def __init__(self, root='/repo', sources=None, normalise=True):
         """`sources` (module name -> text) overrides what is on disk: used by the in-memory
         mutation / variant controls; everything else reads the working tree."""
         self.root = root
@@ -187,7 +192,7 @@ class Repo:
             path = os.path.join(pkg, m + '.py')
             text = self.sources[m]
             try:
-                self.modules[m] = ModuleInfo(m, path, text)
+                self.modules[m] = ModuleInfo(m, path, text, normalise)
             except SyntaxError as e:
                 raise AnalysisError('syntax error in %s: %s' % (path, e))
         # resolve bases inside the package
@@ -290,9 +295,17 @@ class Repo:
         parts.append(m.name if m else '?')
         return '.'.join(reversed(parts))
 
+    @staticmethod
+    def is_new_private_helper(fn):
+        """a private helper that does not exist on the pinned tree: its calls were inlined by the normaliser, so its
+        body is analysed in the context of its callers, not on its own"""
+        from .normalise import PINNED_PRIVATE
+        n = getattr(fn, 'name', '')
+        return n.startswith('_') and not n.startswith('__') and n not in PINNED_PRIVATE
+
     def coverage(self):
         return [{'module': PACKAGE + '.' + m.name, 'path': m.path, 'sha256': m.sha256,
-                 'lines': m.lines, 'ast_nodes': m.nodes,
+                 'lines': m.lines, 'ast_nodes': m.nodes, 'normalisation': m.normalisation,
                  'classes': len(m.classes), 'functions': len(m.functions)}
                 for m in self.modules.values()]
 
